@@ -1300,13 +1300,17 @@ def m_count(E, st, fid, t, args, dest_ty):
         return [('cont', s)]
 
     E.view_zone = st.zone
-    mids0 = tuple(sorted(x[1] for x in E.sliceits_in(E.peek(st, it_ptr))))
+    v0 = E.peek(st, it_ptr)
+    mids0 = tuple(sorted(x[1] for x in E.sliceits_in(v0)))
+    # where the counted iterator stood when the count began (its cursors / the containers it owns)
+    at0 = (tuple((x[1], x[2], x[3]) for x in E.sliceits_in(v0)),
+           tuple((m, st.maps[m].len) for m in E.byvalue_maps(v0) if m in st.maps))
 
     def on_none(s):
         u = fresh('u')
         s.zone.touch(u)
         # (the default count() of core: the number of items next() yielded until it answered None)
-        s.log('counted', mids0, u)
+        s.log('counted', mids0, u, at0)
         return [('ret', s, I(u))]
 
     return _finish(consume(E, st, fid, it_ptr, on_item, on_none, ('count', fid)), [ip])
@@ -1790,6 +1794,20 @@ def m_take(E, st, fid, t, args, dest_ty):
     if d[0] != 'ref':
         return E.opaque_call(st, fid, t, args, dest_ty)
     old = E.load(st, d[2])
+    if old[0] == 'map' and old[1] in st.maps:
+        # mem::take of a whole container: Default::default() is the crate's own impl (an empty container), then
+        # the exchange is that of mem::replace
+        bid = E.impl_index.get(('core::default::Default', st.maps[old[1]].name, 'default'))
+        if bid is not None:
+            body = E.facts.bodies[bid]
+            gs = {g['name']: st.maps[old[1]].cap for g in body.generics if g['kind'] == 'const'}
+            out = []
+            for kind, s2, v in E.call_local(st, bid, [], gs):
+                if kind != 'ret':
+                    out.append((kind, s2, v))
+                else:
+                    out.extend(m_replace(E, s2, fid, t, [d, v], dest_ty))
+            return out
     new = _default_of(E, st, dest_ty, fid, t)
     if new == 'EMPTY-SLICEIT':
         # the default slice iterator is empty: nothing can be reached through it
